@@ -429,7 +429,7 @@ func ruleReconcile(c *Ctx) {
 // ruleEofData: the buffered read helpers report end-of-file only when no data was collected.
 func ruleEofData(c *Ctx) {
 	const R = "R19-eofdata"
-	c.floor(R, 2)
+	c.floor(R, 4)
 	p := c.P
 	for _, name := range []string{"readBufioLine", "readBufioSize"} {
 		fn := c.need(R, "lua", name)
@@ -437,6 +437,7 @@ func ruleEofData(c *Ctx) {
 			continue
 		}
 		okc := false
+		whole := false
 		n := 0
 		allInstrs(fn, func(in ssa.Instruction) {
 			r, ok := in.(*ssa.Return)
@@ -453,7 +454,56 @@ func ruleEofData(c *Ctx) {
 					okc = true
 				}
 			}
+			// ... and the bytes whose count is tested are the bytes handed back (not the last piece of them)
+			conds, _ := truthCondsOf(p, fn, r.Results[2])
+			bases := func(v ssa.Value) map[ssa.Value]bool {
+				out := map[ssa.Value]bool{}
+				seen := map[ssa.Value]bool{}
+				var walk func(v ssa.Value)
+				walk = func(v ssa.Value) {
+					if seen[v] {
+						return
+					}
+					seen[v] = true
+					switch x := v.(type) {
+					case *ssa.Phi:
+						for _, e := range x.Edges {
+							walk(e)
+						}
+					case *ssa.Slice:
+						walk(x.X)
+					default:
+						out[v] = true
+					}
+				}
+				walk(v)
+				return out
+			}
+			counted := map[ssa.Value]bool{}
+			for _, cd := range conds {
+				b, isb := cd.V.(*ssa.BinOp)
+				if !isb || !cd.Sense || b.Op != token.EQL {
+					continue
+				}
+				if k, isk := constInt(b.Y); !isk || k != 0 {
+					continue
+				}
+				if cl, isc := b.X.(*ssa.Call); isc {
+					if bi, isbi := cl.Call.Value.(*ssa.Builtin); isbi && bi.Name() == "len" {
+						for v := range bases(cl.Call.Args[0]) {
+							counted[v] = true
+						}
+					}
+				}
+			}
+			whole = true
+			for v := range bases(r.Results[0]) {
+				if !counted[v] {
+					whole = false
+				}
+			}
 		})
+		c.check(whole, R, name+":eof-tests-the-bytes-handed-back", p.pos(fn.Pos()), "the slice whose emptiness makes the result end-of-file is the slice returned (up to trimming)", name+" decides end-of-file on the length of a piece of what it collected, not of the bytes it returns: a final line or block that ends exactly at a buffer boundary is consumed and reported as end-of-file")
 		c.check(okc && n == 1, R, name+":eof-only-when-empty", p.pos(fn.Pos()), "the end-of-file result requires len(result) == 0", name+" can report end-of-file although it already collected bytes: a final chunk that ends exactly at a buffer boundary is dropped (read returns nil and the cursor has moved)")
 	}
 }
